@@ -229,6 +229,8 @@ def main(ctx):
             if len(steps) < 2:
                 continue
             r = lifecycle.replay(steps, chans, reject)
+            r['l1'] = [b for b in r['l1']
+                       if not b.startswith('DataBeforeClose')]   # C07's
             total += 1
             ctx.count((name, tuple(map(str, r['script']))),
                       nontrivial=len(r['script']) > 2)
@@ -292,6 +294,8 @@ def main(ctx):
         for script, final in (first + rest)[:keep]:
             steps = [(lbl, None) for lbl in script]
             r = lifecycle.replay(steps, chans, reject, final=final)
+            r['l1'] = [b for b in r['l1']
+                       if not b.startswith('DataBeforeClose')]   # C07's
             total += 1
             ctx.count((name, tuple(map(str, r['script']))))
             if r['l1']:
